@@ -92,6 +92,46 @@ def rand_stmt(rng, depth, in_loop, in_func, budget, p_else):
     return [k, b, e]
 
 
+def rand_long(rng, in_func):
+    """Long flat blocks of guarded interrupts (many guard splits in one block), nested 1-3 loops deep."""
+    def guarded(in_loop):
+        ints = (["break", "continue", "continue"] if in_loop else []) + (["return"] if in_func else [])
+        if not ints:
+            return ["m"]
+        body = [[rng.choice(ints)]]
+        if rng.random() < 0.3:
+            body.insert(0, ["m"])
+        orelse = None
+        r = rng.random()
+        if r < 0.15:
+            orelse = [["m"]]
+        elif r < 0.25:
+            orelse = [[rng.choice(ints)]]
+        return ["if", body, orelse]
+
+    def flat(in_loop, n):
+        out = []
+        for _ in range(n):
+            out.append(["m"] if rng.random() < 0.45 else guarded(in_loop))
+        return out
+
+    depth = rng.randint(1, 3)
+    inner = flat(True, rng.randint(3, 8))
+    for d in range(depth):
+        kind = rng.choice(["while", "for"])
+        orelse = flat(d < depth - 1, rng.randint(1, 3)) if rng.random() < 0.4 else None
+        loop = [kind, inner, orelse]
+        if d < depth - 1:
+            pre = flat(True, rng.randint(0, 2))
+            post = flat(True, rng.randint(0, 3))
+            inner = pre + [loop] + post
+        else:
+            inner = [loop] + (flat(False, rng.randint(0, 3)) if in_func or rng.random() < 0.5 else [])
+    if rng.random() < 0.3:
+        inner = [["if", inner, flat(False, rng.randint(1, 4)) if rng.random() < 0.5 else None]]
+    return inner
+
+
 class _Ren:
     def __init__(self, trace_interrupts=False):
         self.k = 0
